@@ -198,7 +198,17 @@ pub fn run(a: &Args) {
                         };
                         if damaged {
                             let mut b = bytes.clone();
-                            if rng.chance(2, 3) { let k = rng.below(b.len() as u64 + 1) as usize; b.truncate(k); } else { for _ in 0..rng.range(1, 4) { b.push(rng.next() as u8); } }
+                            // truncated, extended, or with one byte overwritten / inserted / removed (length prefixes and varint
+                            // continuation bits included: counts far beyond the input, over-long and padded varints)
+                            match rng.below(7) {
+                                0 | 1 => { let k = rng.below(b.len() as u64 + 1) as usize; b.truncate(k); }
+                                2 => { for _ in 0..rng.range(1, 4) { b.push(rng.next() as u8); } }
+                                3 if !b.is_empty() => { let k = rng.below(b.len() as u64) as usize; b[k] = *rng.pick(&[0u8, 1, 0x7F, 0x80, 0x81, 0xFF, 0xFE, 2, 31, 32, 33, 64, 65, 66]); }
+                                4 if !b.is_empty() => { let k = rng.below(b.len() as u64) as usize; b[k] = rng.next() as u8; }
+                                5 => { let k = rng.below(b.len() as u64 + 1) as usize; b.insert(k, *rng.pick(&[0u8, 0x80, 0xFF, 1])); }
+                                _ if !b.is_empty() => { let k = rng.below(b.len() as u64) as usize; b.remove(k); }
+                                _ => { b = vec![0xFF; rng.range(1, 12) as usize]; }
+                            }
                             push(&mut out, format!("TPostcardDamaged {} {} {}", kind, blist(&b), coq_bool(accepts(&b))), "postcard_damaged", json!({"kind": kind, "len": b.len(), "accepted": accepts(&b)}));
                         } else {
                             push(&mut out, format!("TPostcard {} {} {}", lit, blist(&bytes), coq_bool(ok)), "postcard_bytes", json!({"kind": kind, "len": bytes.len()}));
